@@ -7,6 +7,7 @@ continuation differential (delivered == lines that decode on their own) and (3) 
 
 from __future__ import annotations
 
+import asyncio
 import traceback
 from datetime import datetime, timedelta
 from typing import Any
@@ -437,7 +438,9 @@ def _systems() -> dict[str, list[str]]:
 
 
 # --- serial partitions -----------------------------------------------------------------------
-async def _port_run(loop: Any, chunks: list[bytes]) -> dict:
+async def _port_run(loop: Any, chunks: list[bytes], sig_echoes: int = 0) -> dict:
+    """sig_echoes = 0: a listen-only transport (no signature). k > 0: sending enabled - the transport polls the gateway with its 7FFF signature,
+    and the gateway's echo of it arrives k times (a slow gateway echoes every poll it was sent) IN THE SAME READ as the first chunk."""
     from ramses_tx.protocol import ReadProtocol
     from ramses_tx.transport import PortTransport
 
@@ -455,10 +458,17 @@ async def _port_run(loop: Any, chunks: list[bytes]) -> dict:
     proto.pkt_received = spy  # type: ignore[method-assign]
     ser = FakeSerial()
     escaped: list[BaseException] = []
-    tr = PortTransport(ser, proto, loop=loop, disable_sending=True)
+    tr = PortTransport(ser, proto, loop=loop, disable_sending=not sig_echoes)
     ser.transport = tr
     try:
-        await proto.wait_for_connection_made(timeout=5)
+        if sig_echoes:
+            await asyncio.sleep(0.12)  # two or three polls have been written by now
+            sigs = [w for w in ser.written if b" 7FFF " in w]
+            if sigs:
+                echo = b"000 " + sigs[-1].strip().replace(b"18:000730", b"18:006402") + b"\r\n"
+                chunks = [echo * sig_echoes + (chunks[0] if chunks else b"")] + list(chunks[1:])
+        else:
+            await proto.wait_for_connection_made(timeout=5)
         for ch in chunks:
             ser.feed(ch, allow_empty=True)
             try:
@@ -473,10 +483,10 @@ async def _port_run(loop: Any, chunks: list[bytes]) -> dict:
     return {"pkts": pkts, "escaped": escaped}
 
 
-def run_port(chunks: list[bytes]) -> dict:
+def run_port(chunks: list[bytes], sig_echoes: int = 0) -> dict:
     from vf.env import vclock
 
-    res, loop = vclock.run(_port_run, chunks)
+    res, loop = vclock.run(_port_run, chunks, sig_echoes)
     res["loop_exceptions"] = list(loop.exc_contexts)
     return res
 
@@ -490,11 +500,11 @@ def cut(data: bytes, cuts: list[int]) -> list[bytes]:
     return out
 
 
-def check_partition(col: Collector, elements: list[dict], cutsets: list[dict]) -> None:
+def check_partition(col: Collector, elements: list[dict], cutsets: list[dict], sig: int = 0) -> None:
     """elements: [{'kind': valid|mutant|chatter|bytes, 'data': bytes-without-CRLF}]; every element is CRLF-terminated."""
     data = b"".join(e["data"] + b"\r\n" for e in elements)
-    ref = run_port([data])
-    case0 = {"elements": [{"kind": e["kind"], "data": e["data"].decode("latin-1")} for e in elements]}
+    ref = run_port([data], sig)
+    case0 = {"elements": [{"kind": e["kind"], "data": e["data"].decode("latin-1")} for e in elements], "sig_echoes": sig}
     for res, name in ((ref, "single-read"),):
         if res["escaped"] or res["loop_exceptions"]:
             e = (res["escaped"] or [res["loop_exceptions"][0].get("exception")])[0]
@@ -517,9 +527,9 @@ def check_partition(col: Collector, elements: list[dict], cutsets: list[dict]) -
         if cs.get("empties"):
             chunks = [c for ch in chunks for c in (ch, b"")]
         inside = any(0 < c < len(data) and data[c - 2:c] != b"\r\n" for c in cs["cuts"])
-        res = run_port(chunks)
+        res = run_port(chunks, sig)
         col.case(nt=(data, tuple(sorted(set(cs["cuts"])))) if inside else None,
-                 classes=[f"partition:{cs['name']}", "partition:has-bad-element" if has_bad else "partition:all-valid"],
+                 classes=[f"partition:{cs['name']}", "partition:has-bad-element" if has_bad else "partition:all-valid", f"partition:signature-echoes-{min(sig, 1)}"],
                  sample={"n_elements": len(elements), "cuts": cs["name"], "n_chunks": len(chunks), "n_delivered": len(res["pkts"])})
         if res["escaped"] or res["loop_exceptions"]:
             e = (res["escaped"] or [res["loop_exceptions"][0].get("exception")])[0]
@@ -559,7 +569,7 @@ def explore_partitions(job: dict) -> dict:
     element = st.one_of(valid, valid, valid, mutant, chatter, rawbytes, odd, odd)
 
     @st.composite
-    def case(draw: Any) -> tuple[list[dict], list[dict]]:
+    def case(draw: Any) -> tuple[list[dict], list[dict], int]:
         els = draw(st.lists(element, min_size=2, max_size=10))
         data_len = sum(len(e["data"]) + 2 for e in els)
         ends, pos = [], 0
@@ -575,9 +585,10 @@ def explore_partitions(job: dict) -> dict:
             {"name": "random+empties", "cuts": rnd, "empties": True},
             {"name": "after-CR-LF+1", "cuts": [e + 1 for e in ends]},
         ]
-        return els, cutsets
+        # a third of the cases on a transport that sends (it polls the gateway with its signature): 1-3 echoes of the signature lead the stream
+        return els, cutsets, draw(st.sampled_from((0, 0, 0, 0, 1, 2, 3)))
 
-    hyp_explore(case(), lambda c: check_partition(col, c[0], c[1]), job["n"], job["seed"])
+    hyp_explore(case(), lambda c: check_partition(col, c[0], c[1], c[2]), job["n"], job["seed"])
     return col.dump()
 
 
@@ -679,7 +690,7 @@ def replay(case: dict) -> list[tuple[dict, str]]:
         if not isinstance(cuts, list):
             cuts = list(range(1, data_len))
         check_partition(col, els, [{"name": "replay", "cuts": cuts, "empties": case.get("empties", False)},
-                                   {"name": "1-byte-reads", "cuts": list(range(1, data_len))}])
+                                   {"name": "1-byte-reads", "cuts": list(range(1, data_len))}], case.get("sig_echoes", 0))
     else:
         raise ValueError("unknown replay case")
     return [(e["sig"], e["cases"][0]["detail"]) for e in col.violations.values()]
